@@ -118,8 +118,13 @@ def clauses(P, kind, bound, case, items_code, items, want_len, who=None):
             sel = i
             cnt = k
         if P.vertex_index is None:
-            fail('item-fields', 'views-absent', 'item %d exists but the primitive has no vertex view' % i)
-            break
+            # no array views (empty index): an item can only be a polygon without corners
+            if cnt != 0 or len(it.indices) != 0 or len(it.vertices) != 0 or it.normals is not None \
+                    or len(it.texcoords) != 0:
+                fail('item-fields', 'views-absent', 'item %d has corners but the primitive has no array views' % i)
+            if it.material is not P.material and it.material != P.material:
+                fail('item-fields', 'material', 'item %d material %r, primitive material %r' % (i, it.material, P.material))
+            continue
         vix = P.vertex_index[sel]
         if len(vix) != cnt:
             fail('item-fields', 'corner-count', 'item %d covers %d corners, expected %d' % (i, len(vix), cnt))
@@ -171,8 +176,6 @@ def consumption_forms(P, kind, who, mk_iter):
     iteration (iter(P) or P.shapes())."""
     fails = []
     n = len(P)
-    if n > 0 and P.vertex_index is None:
-        return fails                      # the recorded finding (no views at all); reported elsewhere
     c, ref = attempt(lambda: [item_key(P[i]) for i in range(n)])
     if c != 0:
         return fails                      # item access itself fails: the item clauses report it
@@ -267,6 +270,15 @@ def run_case(case):
     for i in range(ulen + 1):
         c, it = attempt(lambda: p[i])
         gets.append([c, obs_item(it, p, kind, False, symbols) if c == 0 else None])
+    def zgets(P, bound):
+        # negative and out-of-range positions: Python's index normalisation
+        n = len(P)
+        out = []
+        for z in sorted({-1, -2, -n, -n - 1, -(n // 2) - 1, n, n + 2}):
+            c, it = attempt(lambda: P[z])
+            out.append([z, [c, obs_item(it, P, kind, bound, symbols) if c == 0 else None]])
+        return out
+    uz = zgets(p, False)
     # ---- bound, through Geometry.bind / BoundGeometry.primitives()
     from collada import scene
     M = numpy.identity(4)
@@ -281,6 +293,7 @@ def run_case(case):
     code, val = attempt(lambda: list(b.shapes()))
     bshapes = [code, [obs_item(it, b, kind, True, symbols) for it in val] if code == 0 else []]
     fails += clauses(b, kind, True, case, code, val, want_len)
+    bz = zgets(b, True)
     code2, val2 = attempt(lambda: list(b))
     blegacy = [code2, [obs_item(it, b, kind, True, symbols) for it in val2] if code2 == 0 else []]
     if code2 != 0 or len(val2) != blen:
@@ -327,7 +340,7 @@ def run_case(case):
         if attempt(p.generateTexTangentsAndBinormals)[0] == 0:
             fails += recheck(p, False, 'unbound-after-generateTexTangentsAndBinormals')
             fails += recheck(p.bind(M, matmap), True, 'bound-of-generated-tangents')
-    return {'code': 0, 'u': [ulen, uiter, gets], 'b': [blen, bshapes, blegacy], 'fails': fails}
+    return {'code': 0, 'u': [ulen, uiter, gets, uz], 'b': [blen, bshapes, blegacy, bz], 'fails': fails}
 
 
 def main():
